@@ -17,6 +17,7 @@ import (
 	"sort"
 	"strings"
 	"sync"
+	"syscall"
 	"time"
 	"unicode/utf16"
 
@@ -34,13 +35,14 @@ type opJ struct {
 }
 
 type visoCaseJ struct {
-	Name  string   `json:"name"`
-	Nodes []nodeJ  `json:"nodes"`
-	Dir   []string `json:"dir"` // directory to turn into an image (relative to the root)
-	Ps3   bool     `json:"ps3,omitempty"`
-	OsFs  bool     `json:"osfs,omitempty"` // open with OsFs + absolute path (as make-iso does)
-	Ops   []opJ    `json:"ops"`
-	Fresh bool     `json:"fresh,omitempty"` // run every op on a freshly opened instance
+	Name   string   `json:"name"`
+	Nodes  []nodeJ  `json:"nodes"`
+	Dir    []string `json:"dir"` // directory to turn into an image (relative to the root)
+	Ps3    bool     `json:"ps3,omitempty"`
+	OsFs   bool     `json:"osfs,omitempty"` // open with OsFs + absolute path (as make-iso does)
+	Ops    []opJ    `json:"ops"`
+	Fresh  bool     `json:"fresh,omitempty"`  // run every op on a freshly opened instance
+	Nofile int      `json:"nofile,omitempty"` // run the case with at most this many open file descriptors more than are open now (RLIMIT_NOFILE)
 
 	Decode   bool     `json:"decode,omitempty"`   // emit a Volume event: the image as decoded by isodec + the tree as walked by the harness
 	TitleID  []string `json:"titleId,omitempty"`  // PS3 mode: the TITLE_ID the script put into PARAM.SFO
@@ -157,6 +159,23 @@ func runVisoCase(c *visoCaseJ, em *emitter, index int) error {
 		return err
 	}
 	open := func() (fileLike, error) { return openViso(w.root, c) }
+	if c.Nofile > 0 {
+		// a process may hold far fewer descriptors than a tree has files (1024 is a common limit)
+		var old syscall.Rlimit
+		if err := syscall.Getrlimit(syscall.RLIMIT_NOFILE, &old); err == nil {
+			inUse := 0
+			if ents, err := os.ReadDir("/proc/self/fd"); err == nil {
+				inUse = len(ents)
+			}
+			lim := old
+			lim.Cur = uint64(inUse + c.Nofile)
+			if lim.Cur < old.Cur {
+				if err := syscall.Setrlimit(syscall.RLIMIT_NOFILE, &lim); err == nil {
+					defer syscall.Setrlimit(syscall.RLIMIT_NOFILE, &old)
+				}
+			}
+		}
+	}
 
 	ev := map[string]interface{}{"ev": "Open", "name": c.Name, "index": index, "ps3": c.Ps3}
 	ref, err := open()
